@@ -198,6 +198,40 @@ func c19f(c *Ctx) {
 			c.Check(why == "", fmt.Sprintf("literal/%s#%d", fn.Name(), nStores), c.W.Pos(st.Pos()), "Literal is made of source text and constants", "a token Literal in "+fn.Name()+" is not made of source text: "+why)
 		})
 	}
+	// (3) no home-made transformation either: the lexer never takes a text apart into bytes or
+	// runes and puts it together again (`b := []byte(s); b[i] = …; string(b)`); the only
+	// conversion to a string is that of the character read
+	nConv := 0
+	for _, fn := range c.W.FuncsOf("lexer") {
+		if isTestFunc(c.W, fn) || len(fn.Blocks) == 0 {
+			continue
+		}
+		k := 0
+		instrs(fn, func(in ssa.Instruction) {
+			cv, ok := in.(*ssa.Convert)
+			if !ok {
+				return
+			}
+			isText := func(t types.Type) (str, seq bool) {
+				if b, ok := t.Underlying().(*types.Basic); ok && b.Info()&types.IsString != 0 {
+					return true, false
+				}
+				if sl, ok := t.Underlying().(*types.Slice); ok {
+					if b, ok := sl.Elem().Underlying().(*types.Basic); ok && (b.Kind() == types.Byte || b.Kind() == types.Uint8 || b.Kind() == types.Rune || b.Kind() == types.Int32) {
+						return false, true
+					}
+				}
+				return false, false
+			}
+			fs, fq := isText(cv.X.Type())
+			ts, tq := isText(cv.Type())
+			if (fs && tq) || (fq && ts) {
+				nConv++
+				k++
+				c.Bad(fmt.Sprintf("%s/text-taken-apart#%d", fn.Name(), k), c.W.Pos(cv.Pos()), fn.Name()+" converts between a string and its bytes / runes ("+pretty(c.term(fn, cv))+"): text that is taken apart and put together again need not be spelled the way the source spells it")
+			}
+		})
+	}
 	c.Check(nStores >= 12, "literal/stores", "-", fmt.Sprintf("%d Literal stores in package lexer examined, %d foreign text calls", nStores, nCalls), fmt.Sprintf("expected at least 12 Literal stores in package lexer, found %d", nStores))
 	_ = sort.Strings
 }
